@@ -8,7 +8,7 @@
 import Gts.Lemmas.PropsLaws
 import Gts.Bridge.Props
 namespace Gts.C01
-open Gts.Gen Gts.PropsG
+open Gts.Gen Gts.Gen.PropsGo Gts.PropsG
 
 variable {σ : Type} [DecidableEq σ]
 
